@@ -1,0 +1,19 @@
+//go:build verif
+
+package emulated
+
+import "math/big"
+
+// Verification exports (build tag verif only): read-only access to internals compared with the
+// formal model.
+
+// VerifSubPadding exposes subPadding.
+func VerifSubPadding(modulus *big.Int, bitsPerLimbs, overflow, nbLimbs uint) []*big.Int {
+	return subPadding(modulus, bitsPerLimbs, overflow, nbLimbs)
+}
+
+// VerifOverflow returns the overflow counter tracked for e.
+func VerifOverflow[T FieldParams](e *Element[T]) uint { return e.overflow }
+
+// VerifMaxOverflow returns the largest overflow the field allows before reducing.
+func VerifMaxOverflow[T FieldParams](f *Field[T]) uint { return f.maxOverflow() }
